@@ -188,6 +188,11 @@ def run_layer(run, rng, tier, model, asn1c, skel, scratch_dir, ncpu, run_lines, 
         run.case(w["line"] + " # " + w["label"])
         run.count("st:env:" + w["env"] + (":Werror" if w["werror"] else ""))
         run.count("st:fault:" + w["fam"])
+        if r["nfatal"] > 0 and (r["rc"] == 0 or r["nfiles"] > 0):    # general clause (wave 5): FATAL => non-zero exit, no code
+            run.count("oracle_deviation")
+            viol("oracle:fatal-diagnostic-implies-failure", {"label": w["label"], "files": [{"name": fn, "text": t} for fn, t in w["files"]], "asn1c": r,
+                                                             "input": "\n".join("-- file %s\n%s" % (fn, t) for fn, t in w["files"]),
+                                                             "what": "%d FATAL line(s), exit %d, %d files" % (r["nfatal"], r["rc"], r["nfiles"])})
         f = dict(kv.split("=", 1) for kv in o.split())
         haswarn = any("W" in ls for ls in w["leaves"])
         cmdline = "asn1c -S <skeletons> -fcompound-names %s%s" % ("-Werror " if w["werror"] else "", " ".join(fn for fn, _ in w["files"]))
